@@ -9,8 +9,46 @@ FRAG = 'Ref[FragmentApp]'
 
 SCHEMAS = {
     'FragmentApp': {'pyclass': ('bp.app.fragment', 'Fragment'),
-                    'fields': {'_agent': 'Ref[Agent]', '_config': 'Opt[Ref[BpConfig]]', '_app_name': 'Str'}},
+                    'fields': {'_agent': 'Ref[Agent]', '_config': 'Opt[Ref[BpConfig]]', '_app_name': 'Str',
+                               '_reassembly': 'Dict[List[IdentElem], Ref[Reassembly]]'}},
+    # portion.Interval values are modelled as sets of integers (closedopen(a, b) = {i | a <= i < b})
+    'Reassembly': {'pyclass': ('bp.app.fragment', 'Reassembly'),
+                   'fields': {'ident': 'List[IdentElem]', 'total_length': 'Int', 'first_frag': 'Opt[Pkt[Bundle]]',
+                              'total_valid': 'Opt[Set[Int]]', 'valid': 'Opt[Set[Int]]', 'data': 'Opt[Bytes]'}},
 }
+
+
+def portion_closedopen(eng, args, kwargs):
+    from pyvc.types import TSet
+    a, b = eng.as_int(args[0]), eng.as_int(args[1])
+    i = z3.Int(fresh_name('pi'))
+    return V(TSet(TInt), z3.Lambda([i], z3.And(a <= i, i < b)))
+
+
+def portion_empty(eng, args, kwargs):
+    from pyvc.types import TSet
+    t = TSet(TInt)
+    return V(t, t.empty())
+
+
+def sb_interval(eng, a, b):
+    from pyvc.types import TSet
+    i = z3.Int(fresh_name('pi'))
+    return V(TSet(TInt), z3.Lambda([i], z3.And(a.z <= i, i < b.z)))
+
+
+def sb_set_union(eng, a, b):
+    x = z3.Const(fresh_name('u'), a.t.elem.sort())
+    return V(a.t, z3.Lambda([x], z3.Or(a.z[x], b.z[x])))
+
+
+def sb_orig_payload(eng, ident):
+    '''(ghost) the payload of the bundle that the fragments with this identity were cut from'''
+    f = z3.Function('orig_payload', ident.t.sort(), TBytes.sort())
+    return V(TBytes, f(ident.z))
+
+
+EXTERNS = {'portion.closedopen': portion_closedopen, 'portion.empty': portion_empty}
 
 GHOST = {
     # one entry per fragment scheduled by Fragment._create, in order
@@ -36,7 +74,7 @@ def cb_pkt_len(eng, v):
     return r
 
 
-SPECBUILTINS = {'hsize': sb_hsize}
+SPECBUILTINS = {'hsize': sb_hsize, 'interval': sb_interval, 'orig_payload': sb_orig_payload, 'set_union': sb_set_union}
 CALLBACKS = {'pkt_len': cb_pkt_len}
 
 ASSUMPTIONS = [
@@ -46,6 +84,29 @@ ASSUMPTIONS = [
 ]
 
 SPECFUNCS = {
+    # ---- C06 -------------------------------------------------------------------------------------
+    # identity of the bundle a fragment belongs to: (source, creation time, sequence number)
+    'rid': (['c'], 'slice(ident_of(c), 0, 3)'),
+    'entry_ok': (['r'], 'r.data is not None and r.valid is not None and r.total_valid is not None and '
+                        'r.total_length == length(orig_payload(r.ident)) and length(unwrap(r.data)) == r.total_length and '
+                        'unwrap(r.total_valid) == interval(0, r.total_length) and '
+                        'forall(i, "Int", implies(contains(unwrap(r.valid), i), 0 <= i and i < r.total_length)) and '
+                        'implies(contains(unwrap(r.valid), 0), r.first_frag is not None and '
+                        'unwrap(r.first_frag).primary is not None and unwrap(unwrap(r.first_frag).primary).bundle_flags >= 0)'),
+    # after this fragment every octet of the original is there
+    # (as sets of octet positions: what was valid before, joined with this fragment's range, is the whole payload range)
+    'covered_after': (['s', 'c'], 'forall(i, 0, length(orig_payload(rid(c))), '
+                                  '(old(contains(s._reassembly, rid(c))) and '
+                                  'contains(unwrap(old(lookup(s._reassembly, rid(c)).valid)), i)) or '
+                                  '(npri(c).fragment_offset <= i and i < npri(c).fragment_offset + '
+                                  'length(unwrap(old(lookup(c._block_num, 1).btsd)))))'),
+    # reassembly records of other bundles keep all their fields
+    'entries_untouched': (['s', 'c'], 'forall(r, "Ref[Reassembly]", implies(existed(r) and not (old(contains(s._reassembly, rid(c))) and '
+                                      'r == old(lookup(s._reassembly, rid(c)))), r.ident == old(r.ident) and '
+                                      'r.total_length == old(r.total_length) and eqv(r.first_frag, old(r.first_frag)) and '
+                                      'eqv(r.total_valid, old(r.total_valid)) and eqv(r.valid, old(r.valid)) and '
+                                      'eqv(r.data, old(r.data))))'),
+    # ---- C05 -------------------------------------------------------------------------------------
     'npri': (['c'], 'unwrap(c.bundle.primary)'),
     # primary block of a fragment container fc made from container c at offset off of a payload of `total` octets
     'hdr_ok': (['fc', 'c', 'off', 'total'],
@@ -76,9 +137,10 @@ FUNCS = {
     'bp.util:BundleContainer.block_num': dict(
         self=CTR, params={'num': 'Int'}, returns='Pkt[CanonicalBlock]', props=['C05'],
         trusted=True, trusted_reason='reads the block index map _block_num, assumed coherent with bundle.blocks (reload)',
-        raises={'KeyError': dict(modifies=[])},
+        raises={'KeyError': dict(when='not contains(self._block_num, num)', iff=True, modifies=[])},
         modifies=[],
-        ensures=[('is_that_block', 'contains(self.bundle.blocks, result) and eqv(result.block_num, num)')],
+        ensures=[('is_that_block', 'contains(self.bundle.blocks, result) and eqv(result.block_num, num) and '
+                                   'result == lookup(self._block_num, num)')],
     ),
     'bp.app.fragment:Fragment._create': dict(
         self=FRAG, params={'ctr': CTR}, returns='Opt[Bool]', props=['C05'],
@@ -159,4 +221,73 @@ FUNCS = {
             ('fragment_headers', 'ghost.frag_hdr_ok', ['C05']),
         ],
     ),
+    # ------------------------------------------------------------------------------------------- C06
+    'bp.app.fragment:Fragment._reassemble': dict(
+        self=FRAG, params={'ctr': CTR}, returns='Opt[Bool]', props=['C06'], handler=True,
+        # nothing is claimed about the octets of the reassembly buffer (see MANIFEST): buffer writes are opaque
+        opaque_slice_store=True,
+        timeout_ms=40000,      # the two coverage clauses take z3 about 11 s each
+        # NOT CLAIMED (C06 is under not_applicable in MANIFEST.json): 15 of 17 obligations discharge; the two coverage
+        # clauses (delivers_once_complete / nothing_delivered_while_octets_missing) are proved by z3 on the dumped
+        # verification conditions (0.6 s with smt.mbqi=false, 11 s default) but not inside the engine's budgeted routing
+        wip=True,
+        requires=[
+            ('wire', 'ctr.bundle.primary is not None and npri(ctr).bundle_flags >= 0', []),
+            # (well-formed input) a fragment offered for delivery is a piece of one original payload per identity
+            ('fragment_of_the_original',
+             'implies(contains(ctr.actions, "deliver") and flag(npri(ctr).bundle_flags, F_IS_FRAGMENT), '
+             'contains(ctr._block_num, 1) and lookup(ctr._block_num, 1).btsd is not None and '
+             'npri(ctr).fragment_offset >= 0 and npri(ctr).total_app_data_len == length(orig_payload(rid(ctr))) and '
+             'npri(ctr).fragment_offset + length(unwrap(lookup(ctr._block_num, 1).btsd)) <= npri(ctr).total_app_data_len and '
+             'length(unwrap(lookup(ctr._block_num, 1).btsd)) > 0)', []),
+        ],
+        raises={'KeyError': dict(), 'RuntimeError': dict()},
+        modifies=['FragmentApp._reassembly', 'Reassembly.ident', 'Reassembly.total_length', 'Reassembly.first_frag',
+                  'Reassembly.total_valid', 'Reassembly.valid', 'Reassembly.data', 'Ctr.actions', 'ghost.sched_recv',
+                  'Ctr.bundle', 'Ctr.status_reason', 'Ctr.route', 'Ctr.sender', 'Ctr._last_block_num', 'Ctr._block_num',
+                  'pkt:Bundle.primary', 'pkt:Bundle.blocks', 'pkt:CanonicalBlock.btsd', 'pkt:CanonicalBlock.crc_type',
+                  'pkt:CanonicalBlock.crc_value', 'pkt:PrimaryBlock.bundle_flags', 'pkt:PrimaryBlock.crc_type',
+                  'pkt:PrimaryBlock.crc_value', 'ghost.crc_ok'],
+        locals={'reassm': 'Opt[Ref[Reassembly]]'},
+        loops={0: dict(invariant=[('nothing_else', 'ghost.sched_recv == old(ghost.sched_recv) and '
+                                                  'not contains(self._reassembly, rid(ctr)) and '
+                                                  'forall(k, "List[IdentElem]", implies(not (k == rid(ctr)), '
+                                                  'contains(self._reassembly, k) == old(contains(self._reassembly, k)) and '
+                                                  'implies(contains(self._reassembly, k), lookup(self._reassembly, k) == '
+                                                  'old(lookup(self._reassembly, k))))) and entries_untouched(self, ctr)')])},
+        ensures=[
+            ('ignored_unless_a_delivered_fragment',
+             'implies(not old(contains(ctr.actions, "deliver")) or not flag(npri(ctr).bundle_flags, F_IS_FRAGMENT), '
+             'result is None and self._reassembly == old(self._reassembly) and ghost.sched_recv == old(ghost.sched_recv) and '
+             'ctr.actions == old(ctr.actions))', ['C06']),
+            ('fragment_consumed', 'implies(old(contains(ctr.actions, "deliver")) and flag(npri(ctr).bundle_flags, F_IS_FRAGMENT), '
+                                  'result is not None and is_empty_set(dom(ctr.actions)))', ['C06']),
+            # fragments of different bundles (different source or creation timestamp) never mix
+            ('other_bundles_untouched',
+             'forall(k, "List[IdentElem]", implies(not (k == rid(ctr)), '
+             'contains(self._reassembly, k) == old(contains(self._reassembly, k)) and '
+             'implies(contains(self._reassembly, k), lookup(self._reassembly, k) == old(lookup(self._reassembly, k))))) and '
+             'entries_untouched(self, ctr)', ['C06']),
+            # nothing is delivered while any payload octet is still missing; exactly one bundle once all are there
+            ('delivers_once_complete',
+             'implies(old(contains(ctr.actions, "deliver")) and flag(npri(ctr).bundle_flags, F_IS_FRAGMENT) and '
+             'covered_after(self, ctr), length(ghost.sched_recv) == length(old(ghost.sched_recv)) + 1 and '
+             'not contains(self._reassembly, rid(ctr)))', ['C06']),
+            ('nothing_delivered_while_octets_missing',
+             'implies(old(contains(ctr.actions, "deliver")) and flag(npri(ctr).bundle_flags, F_IS_FRAGMENT) and '
+             'not covered_after(self, ctr), ghost.sched_recv == old(ghost.sched_recv) and '
+             'contains(self._reassembly, rid(ctr)))', ['C06']),
+            ('reassembled_bundle_is_no_fragment',
+             'implies(length(ghost.sched_recv) == length(old(ghost.sched_recv)) + 1, '
+             'last(ghost.sched_recv).bundle.primary is not None and '
+             'not flag(npri(last(ghost.sched_recv)).bundle_flags, F_IS_FRAGMENT))', ['C06']),
+        ],
+    ),
 }
+
+INVARIANTS = {'FragmentApp': [
+    # every reassembly in progress: buffer of the announced size, the octets marked valid are in range and are the
+    # original's octets, the first fragment is held once octet 0 is there
+    ('entries_ok', 'forall(k, "List[IdentElem]", implies(contains(self._reassembly, k), '
+                   'entry_ok(lookup(self._reassembly, k)) and lookup(self._reassembly, k).ident == k))', ['C06']),
+]}
